@@ -36,6 +36,12 @@ def stepOps (pre post : Core) (op : String) (j : Json) (msgs : List Json) : Opti
      | "decommission" =>
        let order := (msgs.filter (fun m => msgT m "t" == "release")).map (fun m => (msgT m "app", msgT m "key"))
        let appsOn := ((pre.findNode (sj "id")).map (fun n => n.allocs.map (·.app))).getD []
+       -- rounds of removeNodeAllocations that release nothing (a replacement that is rolled back) are not announced: the
+       -- node's allocations are a Go map, such a round may have come before or after the announced ones; the order is
+       -- read from the new state
+       let rest := ((pre.findNode (sj "id")).map (fun n => ((n.allocs.filter (!·.foreign)).map (fun na => (na.app, na.key))).filter
+                     (fun p => !(order.contains p)))).getD []
+       let order := if rest.isEmpty || (ledgerDiff (pre.nodeRemove (sj "id") order) post).isNone then order else rest ++ order
        if appsOn.all (fun a => pre.queuesCover a) then some [.nodeRemove (sj "id") order] else none
      | _ => none)
   | "alloc" =>
